@@ -2,6 +2,7 @@ import Moyo.Model.Wire
 import Moyo.Model.HNF
 import Moyo.Model.NFSpec
 import Moyo.Model.Hall
+import Moyo.Model.DriverC08
 import Moyo.Model.DriverC14
 import Moyo.Model.DriverC16
 import Moyo.Model.DriverPipe
@@ -139,6 +140,7 @@ def handlers : List (String → Option String) := [
   Moyo.DriverC07.step?,
   Moyo.DriverPipe.step?,
   Moyo.DriverStage.step?,
+  Moyo.DriverC08.step?,
   Moyo.DriverC14.step?,
   Moyo.DriverC16.step?,
   Moyo.DriverC19.step?,
